@@ -5,7 +5,7 @@ import ast
 from typing import Dict, List, Optional, Tuple
 
 from .. import algebra as A
-from ..abseval import (Cond, Const, Ctx, EnumVal, Evaluator, Inst, NONE, Raised, Scalar, State, S, Test, Undecided,
+from ..abseval import (Cond, Const, Ctx, EnumVal, Evaluator, Inst, NONE, Raised, Scalar, State, S, SymObj, Test, Undecided,
                        cond_leaves)
 from ..check import Variant
 from ..loader import AnalysisError, Program, dotted, norm
@@ -114,7 +114,7 @@ def run(prog: Program, rep, thorough: bool) -> None:
     rep.rule('C17.R1', 'disabled sensitivity returns the stated velocity', 1)
     rep.rule('C17.R2', 'enabled: linear, anchored, slope = modifier', 1)
     rep.rule('C17.R3', 'calibration reproduces the second measurement in every ordering', 5)
-    rep.rule('C17.R4', 'solver and atmosphere wiring of the powder temperature', 4)
+    rep.rule('C17.R4', 'solver and atmosphere wiring of the powder temperature', 5)
     mun = prog.module(C.M_MUN)
     ev = Evaluator(prog, hooks=C.pref_hooks(prog), opaque={'calculate_air_density', 'machF', 'standard_pressure',
                                                              'standard_temperature'})
@@ -178,33 +178,35 @@ def run(prog: Program, rep, thorough: bool) -> None:
                  f'enabled: v(T) = {v_of_T!r}; the statement says {want!r}')
 
     # ---- R3 ------------------------------------------------------------------------------------
-    st = State()
-    ammo = _mk_ammo(ev, st, prog, Const(True))
-    try:
-        ret, st = ev.call_value(cps, [_redisplay(ev, st, _mps(ev, st, prog, 'v1'), prog, 'KT'),
-                                      _redisplay(ev, st, _celsius(ev, st, prog, 't1'), prog, 'Kelvin')], self_val=ammo, st=st)
-    except Undecided as exc:
-        raise AnalysisError(f'calc_powder_sens: {exc}') from exc
-    stored = st.heap[ammo.oid].get('temp_modifier')
-    v1, t1 = A.sym('v1'), A.sym('t1')
-    orderings = [('second faster and warmer', [v1 - v0, t1 - T0]), ('second faster and colder', [v1 - v0, T0 - t1]),
-                 ('second slower and warmer', [v0 - v1, t1 - T0]), ('second slower and colder', [v0 - v1, T0 - t1])]
-    for label, pos in orderings:
-        mval = _pick(stored, pos)
-        rv = _pick(ret, pos)
-        if isinstance(mval, Raised) or isinstance(rv, Raised) or not isinstance(mval, Scalar):
-            rep.fail('C17.R3', mun.path, cps.node.lineno, cps.qualname, f'ordering:{label}',
-                     f'calibration with {label}: no modifier is stored ({mval!r})')
-            continue
-        mrf = _resolve_abs(mval.rf, pos)
-        # substitute the stored modifier into the reader and evaluate at T = t1
-        got = v_of_T.subs({'m': mrf, 'T': t1}) if v_of_T is not None else None
-        if got is not None and got.equals(v1):
-            rep.ok('C17.R3', cps.where, f'{label}: stored modifier {mrf!r} gives v(t1) = v1')
-        else:
-            rep.fail('C17.R3', mun.path, cps.node.lineno, cps.qualname, f'ordering:{label}',
-                     f'calibration with {label}: stores m = {mrf!r}; the ammunition then gives v(t1) = {got!r}, '
-                     f'not the measured v1')
+    # calibrated on an ammunition that already carries a modifier m, with the sensitivity switch on and off
+    for sens_on, tag in ((True, ''), (False, ' (sensitivity switched off while calibrating, earlier modifier m)')):
+        st = State()
+        ammo = _mk_ammo(ev, st, prog, Const(sens_on))
+        try:
+            ret, st = ev.call_value(cps, [_redisplay(ev, st, _mps(ev, st, prog, 'v1'), prog, 'KT'),
+                                          _redisplay(ev, st, _celsius(ev, st, prog, 't1'), prog, 'Kelvin')], self_val=ammo, st=st)
+        except Undecided as exc:
+            raise AnalysisError(f'calc_powder_sens: {exc}') from exc
+        stored = st.heap[ammo.oid].get('temp_modifier')
+        v1, t1 = A.sym('v1'), A.sym('t1')
+        orderings = [('second faster and warmer', [v1 - v0, t1 - T0]), ('second faster and colder', [v1 - v0, T0 - t1]),
+                     ('second slower and warmer', [v0 - v1, t1 - T0]), ('second slower and colder', [v0 - v1, T0 - t1])]
+        for label, pos in orderings:
+            mval = _pick(stored, pos)
+            rv = _pick(ret, pos)
+            if isinstance(mval, Raised) or isinstance(rv, Raised) or not isinstance(mval, Scalar):
+                rep.fail('C17.R3', mun.path, cps.node.lineno, cps.qualname, f'ordering:{label}{tag}',
+                         f'calibration with {label}: no modifier is stored ({mval!r})')
+                continue
+            mrf = _resolve_abs(mval.rf, pos)
+            # substitute the stored modifier into the reader and evaluate at T = t1
+            got = v_of_T.subs({'m': mrf, 'T': t1}) if v_of_T is not None else None
+            if got is not None and got.equals(v1):
+                rep.ok('C17.R3', cps.where, f'{label}{tag}: stored modifier {mrf!r} gives v(t1) = v1')
+            else:
+                rep.fail('C17.R3', mun.path, cps.node.lineno, cps.qualname, f'ordering:{label}{tag}',
+                         f'calibration with {label}{tag}: stores m = {mrf!r}; the ammunition then gives v(t1) = {got!r}, '
+                         f'not the measured v1')
     # equal measurements are rejected
     rejected = True
     for path, leaf in cond_leaves(ret):
@@ -259,21 +261,39 @@ def run(prog: Program, rep, thorough: bool) -> None:
     ainit = prog.func(C.M_COND, 'Atmo.__init__')
     rep.saw(ainit)
     cond = prog.module(C.M_COND)
-    for label, powder in (('given', lambda st: _celsius(ev, st, prog, 'PT')), ('absent', lambda st: NONE)):
+    for label, powder in (('given', lambda st: _celsius(ev, st, prog, 'PT')), ('absent', lambda st: NONE),
+                          ('and air temperature absent', lambda st: NONE)):
         st = State()
         kw = {'altitude': C.mk_quantity(ev, st, prog, 'Distance', 'alt', 'Foot'),
               'pressure': C.mk_quantity(ev, st, prog, 'Pressure', 'prs', 'MmHg'),
-              'temperature': _celsius(ev, st, prog, 'AT'), 'humidity': Scalar(0), 'powder_t': powder(st)}
+              'temperature': NONE if label.startswith('and') else _celsius(ev, st, prog, 'AT'),
+              'humidity': Scalar(0), 'powder_t': powder(st)}
         try:
             obj = ev.construct(atmo_c, [], kw, st, Ctx(cond, None, None, 0))
         except Undecided as exc:
             raise AnalysisError(f'Atmo.__init__: {exc}') from exc
         outs = []
+        airs = []
         for _p, leaf in cond_leaves(obj):
             if isinstance(leaf, Inst):
                 pt = ev.getattr(leaf, 'powder_temp', st, Ctx(cond, None, None, 0))
                 outs.append(_in_unit(ev, st, prog, pt, 'Celsius'))
+                airs.append(_in_unit(ev, st, prog, ev.getattr(leaf, 'temperature', st, Ctx(cond, None, None, 0)), 'Celsius'))
         expect = A.sym('PT') if label == 'given' else A.sym('AT')
+        if label.startswith('and'):
+            # neither given: the powder is at the air temperature the object itself reports (standard at its altitude)
+            def _key(v):
+                return ('rf', v.rf.key() if hasattr(v.rf, 'key') else repr(v.rf)) if isinstance(v, Scalar) else \
+                    ('sym', v.path) if isinstance(v, SymObj) else ('?', repr(v))
+            if not airs or any(_key(a_)[0] == '?' for a_ in airs):
+                raise AnalysisError(f'Atmo.temperature without arguments is {airs!r}')
+            if len(outs) == len(airs) and all(_key(o) == _key(a_) for o, a_ in zip(outs, airs)):
+                rep.ok('C17.R4', ainit.where, 'neither temperature given: the powder is at the air temperature the object reports')
+            else:
+                rep.fail('C17.R4', cond.path, ainit.node.lineno, ainit.qualname, 'powder-default-air',
+                         f'neither temperature given: Atmo.powder_temp is {outs!r} while the air temperature of the object is '
+                         f'{airs!r} (standard at its altitude)')
+            continue
         if outs and all(isinstance(o, Scalar) and o.rf.equals(expect) for o in outs):
             rep.ok('C17.R4', ainit.where, f'powder temperature {label}: Atmo.powder_temp = {expect!r}')
         else:
@@ -287,6 +307,7 @@ CON = 'py_ballisticcalc/conditions.py'
 VARIANTS = [
     Variant('slope-constant-in-reader-only', 'break', [(MUN, 'self.temp_modifier / (15 / v0) * t_delta + v0', 'self.temp_modifier / (10 / v0) * t_delta + v0')], 'C17.R2', 'sibling disagreement', 'pass'),
     Variant('reader-sign-flip', 'break', [(MUN, 't_delta = t1 - t0\n            muzzle_velocity', 't_delta = t0 - t1\n            muzzle_velocity')], 'C17.R2'),
+    Variant('default-powder-temperature-sea-level-standard', 'break', [(CON, 'self._powder_temp = PreferredUnits.temperature(self.temperature if powder_t is None else powder_t)', 'self._powder_temp = PreferredUnits.temperature((Temperature.Fahrenheit(cStandardTemperatureF) if temperature is None else self.temperature) if powder_t is None else powder_t)')], 'C17.R4', 'seeded change C17/5: altitude ignored when no air temperature is given'),
     Variant('solver-uses-air-temperature', 'break', [(TCF, 'get_velocity_for_temp(shot_info.atmo.powder_temp)', 'get_velocity_for_temp(shot_info.atmo.temperature)')], 'C17.R4', 'positive control', 'caught'),
     Variant('solver-reads-mv', 'break', [(TCF, 'self.muzzle_velocity = shot_info.ammo.get_velocity_for_temp(shot_info.atmo.powder_temp) >> Velocity.FPS', 'self.muzzle_velocity = shot_info.ammo.mv >> Velocity.FPS')], 'C17.R4', 'positive control', 'caught'),
     Variant('disabled-path-weakened', 'break', [(MUN, '        if not self.use_powder_sensitivity:\n            return self.mv\n', '        if not self.use_powder_sensitivity and not self.temp_modifier:\n            return self.mv\n')], 'C17.R1', 'positive control', 'caught'),
